@@ -256,6 +256,7 @@ type hostile struct {
 	fresh      bool                         // the peer has not announced any round step yet (first message of a new connection)
 	mustIgnore bool                         // reference predicate: invalid under every reading => digest must not change
 	flood      int                          // > 0: the messages are a flood of one peer; the node may keep state for at most this many of them
+	wal        bool                         // the node runs with a real write-ahead log (every peer message is logged before it is looked at)
 }
 
 const bigInt = 1<<31 - 1
@@ -401,6 +402,34 @@ func voteFloods() []hostile {
 					ms = append(ms, mk(w, i))
 				}
 				return ms
+			}})
+	}
+	return out
+}
+
+// nearLimit: decodable messages whose wire size is at, or just below, the largest size the reactor accepts. The node logs every
+// peer message in its write-ahead log before looking at it, inside an envelope (time, peer id, type prefixes) of about 60 bytes:
+// every size limit on that path has to leave room for the envelope.
+func nearLimit() []hostile {
+	var out []hostile
+	max := cs.VerifMaxMsgSize()
+	for _, k := range []int{0, 1, 8, 40, 59, 60, 61, 64, 100, 1023, 1024, 1025} {
+		target := max - k
+		out = append(out, hostile{name: fmt.Sprintf("BlockPart{another height, wire size = max-%d}", k), ch: cs.DataChannel, wal: true,
+			msg: func(w *world) interface{} {
+				n := target - 64
+				for try := 0; try < 8; try++ {
+					m := &cs.BlockPartMessage{Height: w.h + 7, Round: 0, Part: &types.Part{Index: 0, Bytes: make([]byte, n)}}
+					bz, err := ser.EncodeToBytesWithType(m)
+					if err != nil {
+						return nil
+					}
+					if len(bz) == target {
+						return m
+					}
+					n += target - len(bz)
+				}
+				return nil // this exact size is not reachable (length-prefix step): no case
 			}})
 	}
 	return out
@@ -891,6 +920,21 @@ func runCase(f *csnet.Fixture, st state, hs []hostile, cont int) outcome {
 		bz := ser.MustEncodeToBytesWithType(&cs.NewRoundStepMessage{Height: rs.Height, Round: rs.Round, Step: cstypes.RoundStepPropose, SecondsSinceStartTime: 0, LastCommitRound: lcr})
 		vk.Catch(func() { w.re.Receive(cs.StateChannel, w.peer, bz) })
 	}
+	for _, h := range hs {
+		if h.wal {
+			dir, err := ioutil.TempDir(scratchBase(), "c16wal")
+			if err != nil {
+				vk.Fatalf("wal dir: %v", err)
+			}
+			defer os.RemoveAll(dir)
+			stop, err := w.n.VerifUseFileWAL(dir)
+			if err != nil {
+				vk.Fatalf("wal: %v", err)
+			}
+			defer stop()
+			break
+		}
+	}
 	before := digest(w)
 	roundsBefore := w.n.CS.GetRoundState().Votes.VerifRoundCount()
 	names := []string{}
@@ -1031,6 +1075,7 @@ func main() {
 	var typed []hostile
 	typed = append(typed, voteMutations()...)
 	typed = append(typed, voteFloods()...)
+	typed = append(typed, nearLimit()...)
 	typed = append(typed, proposalMutations()...)
 	typed = append(typed, partMutations()...)
 	typed = append(typed, stateChannelMessages()...)
@@ -1212,4 +1257,11 @@ func main() {
 	r.Assume("a panic inside ConsensusReactor.Receive runs under MConnection.recvRoutine's deferred recover and only stops that peer (recorded, not a violation); a panic inside handleMsg/handleTimeout ends receiveRoutine")
 	r.Assume("one hostile peer; the node is a validator that never proposes in rounds 0..2")
 	r.Finish()
+}
+
+func scratchBase() string {
+	if st, err := os.Stat("/dev/shm"); err == nil && st.IsDir() {
+		return "/dev/shm"
+	}
+	return ""
 }
